@@ -9,8 +9,8 @@
 EXTENDS Bitmap, TLCExt, Json, IOUtils
 CONSTANT Depth
 
-GenIdx == {-32768, -1025, -1024, -65, -64, -63, -1, 0, 1, 8, 9, 10, 31, 32, 62, 63, 64, 65,
-           127, 128, 200, 255, 256, 511, 512, 959, 960, 1022, 1023, 1024, 1025, 1087, 2048, 32767}
+GenIdx == {-32768, -1025, -1024, -65, -64, -1, 0, 1, 9, 62, 63, 64, 65, 127, 128, 255, 256,
+           959, 1022, 1023, 1024, 1025, 1087, 32767}
 
 Asc(S) == SetToSortSeq(S, LAMBDA x, y : x < y)
 FillSets ==
